@@ -176,6 +176,35 @@ def from_twodomains(k):
     return [ev]
 
 
+def from_multitop(k):
+    """several tops given as a list, one of them also instantiated (deep) below another; and exports under an explicit domain of designs that
+    hold an ExternalModule declared without a domain"""
+    from ..hd import h
+    amp = h.ExternalModule(name="amp", port_list=[h.Port(name="i"), h.Port(name="o")], desc="no domain given")
+    inv = h.Module(name=f"Inv{k}")
+    inv.i, inv.o = h.Port(), h.Port()
+    inv.a = amp()(i=inv.i, o=inv.o)
+    core = h.Module(name=f"Core{k}")
+    core.i, core.o, core.n = h.Port(), h.Port(), h.Signal()
+    core.x = inv(i=core.i, o=core.n)
+    core.y = inv(i=core.n, o=core.o)
+    chip = h.Module(name=f"Chip{k}")
+    chip.i, chip.o = h.Port(), h.Port()
+    chip.c = core(i=chip.i, o=chip.o)
+    other = h.Module(name=f"Other{k}")
+    other.i, other.o = h.Port(), h.Port()
+    other.a = amp()(i=other.i, o=other.o)
+    variants = [([inv, chip], None), ([chip, inv], None), ([inv, other, chip], None), ([core, inv, chip], None), ([chip], "mylib"), ([inv, chip], "mylib"), ([other], "lib.sub")]
+    tops, dom = variants[k % len(variants)]
+    try:
+        pkg = h.to_proto(tops, domain=dom) if dom else h.to_proto(tops)
+    except Exception:
+        return []
+    ev = {"src": "multitop", "P": proj_package(pkg, None)}
+    ev.update(check_pkg(h, pkg))
+    return [ev]
+
+
 def from_suite(args):
     """a package some test of the repository's own test-suite exported (recorded by the export hook, harness/suite.py)"""
     src, raw = args
@@ -221,6 +250,9 @@ def run(tier, seed, replay_file=None):
         if err:
             ex_errors[name] = err
         o.cover["example_" + name] = len(out)
+    for out in pool_map(from_multitop, list(range(7))):
+        evs += out
+        o.cover["multitop"] = o.cover.get("multitop", 0) + len(out)
     for out in pool_map(from_twodomains, [0, 1, 2, 3]):
         evs += out
         o.cover["twodomains"] = o.cover.get("twodomains", 0) + len(out)
@@ -271,7 +303,7 @@ def run(tier, seed, replay_file=None):
             o.violations.append(Violation(clause=clause.split(":")[0], case={"source": e["src"], "P": e["P"]},
                                           features=["src_" + src, clause] + (["source:" + e["src"]] if src == "suite" else []), detail=e.get("why")))
     o.distinct_nontrivial = len(seen)
-    o.required_cover = ["example_ro", "example_rdac", "example_encoder", "example_diff_ota", "example_idac", "example_bundles", "builtin", "src_U_sig", "src_U_bundle", "rebinding", "retry_after_failure_designs", "suite_packages"]
+    o.required_cover = ["example_ro", "example_rdac", "example_encoder", "example_diff_ota", "example_idac", "example_bundles", "builtin", "src_U_sig", "src_U_bundle", "rebinding", "retry_after_failure_designs", "suite_packages", "multitop"]
     for i in rnd.sample(range(len(evs)), 2):
         o.samples.append({"source": evs[i]["src"], "modules": evs[i]["P"]["order"], "verdict": verdicts[i]})
     return o
